@@ -513,7 +513,12 @@ def run(ctx):
         for it in range(ctx.q(20, 100)):
             n = int(rng.integers(1, nmax + 1))
             x = rng.integers(0, 64, size=n).astype(float)
-            y = np.asarray(fn(x.copy()))
+            try:
+                y = np.asarray(fn(x.copy()))
+            except Exception as ex:
+                report([('raises/tools.%s/%s' % (name, 'even' if n % 2 == 0 else 'odd'), 'exception %r on an input of length %d' % (ex, n))],
+                       {'site': 'tools', 'helper': name, 'x': vlib.hexv(x)})
+                y = np.zeros(10 ** 3)
             cases.append('helper_dense %d%%nat %s %s' % (h, czl(x), czl(y)))
             meta.append({'site': 'tools', 'helper': name, 'x': vlib.hexv(x)})
             if name == 'twosided_2_onesided':
